@@ -9,14 +9,43 @@ BASE_NOTE = ("Trusted: Coq 8.16.1 kernel (vm_compute used, native_compute not us
              "generated cases): Rust harness, OCaml driver, Coq extraction with ExtrOcamlBasic only (no Extract Constant), Python generators "
              "and oracle. usize = 64 bit. ")
 NOT_APPLICABLE = {}
+
+def _e(technique, text, note=""):
+    return {"technique": technique, "text": text, "note": BASE_NOTE + note}
+
+T_CORR = "Coq theorems over a hand-written Gallina model + differential correspondence (extracted model vs real code) with a property oracle"
 CHECKS = {
- "C15": {
-  "technique": "Coq proof over Gallina model of tools.rs + differential correspondence (extracted model vs real code)",
-  "text": ("Unbounded theorems (all N/Z values, all byte lists, widths 1-8 by exhaustive case split) for every clause of the property: "
-           "shortest default encoding, fixed-width exactness/overflow, decode(encode)=id with arbitrary trailing bytes, decoder totality, "
-           "need-more exactly on proper prefixes, length bound and canonicity, signed fixed/default/round trip incl. width 8, signed/unsigned "
-           "length agreement, is_vint characterisation. The model is tied to src/tools.rs by running ~3*10^5 (quick) cases incl. exhaustive "
-           "sub-spaces through the extracted model and the real functions in both overflow-check modes."),
-  "note": BASE_NOTE + "Widths outside 1..8 are outside the property (code panics; model says Panic; not generated).",
- },
+ "C15": _e("Coq proof over Gallina model of tools.rs + differential correspondence (extracted model vs real code)",
+  "Unbounded theorems (all N/Z values, all byte lists, widths 1-8 by exhaustive case split) for every clause of the property: "
+  "shortest default encoding, fixed-width exactness/overflow, decode(encode)=id with arbitrary trailing bytes, decoder totality, "
+  "need-more exactly on proper prefixes, length bound and canonicity, signed fixed/default/round trip incl. width 8, signed/unsigned "
+  "length agreement, is_vint characterisation. The model is tied to src/tools.rs by running ~3*10^5 (quick) cases incl. exhaustive "
+  "sub-spaces through the extracted model and the real functions in both overflow-check modes.",
+  "Widths outside 1..8 are outside the property (code panics; model says Panic; not generated)."),
 }
+PENDING = {
+ "C16": "fixed-width decoders: model Tools.arr_to_*; correspondence exhaustive on slices of 0-2 bytes + writer inversion via write/read",
+ "C11": "model Spec.path_matches/count_ended/validate_tag_path; correspondence on every id x reachable chains, writer and reader side, brute-force pattern oracle",
+ "C09": "model Writer.wstep; groups of writer runs (Full vs Start/End, deprecated call, options vs default, write scripts)",
+ "C19": "model Writer.write_advanced rollback; pairs of runs with one failing call of 9 kinds inserted",
+ "C10": "model Writer.wrun; per-call destination snapshots parsed by the real iterator",
+ "C01": "models Writer+Reader; write-then-read of random conformant unambiguous documents",
+ "C02": "models Reader+Writer; read-write-read on non-canonical encodings",
+ "C03": "model Reader; independent re-decode of the input at every reported offset",
+ "C04": "model Reader buffered machine (window/capacity/read script); groups over chunkings, capacities, EOF pauses; exhaustive partitions of small inputs",
+ "C05": "model Reader incl. Panic/Fuel outcomes; adversarial streams x configurations x next/try_recover interleavings under catch_unwind",
+ "C06": "model Reader; independent nesting/path/extent checker on strict parses",
+ "C07": "model Spec.count_ended + Reader; groups of known/unknown-size encodings of one tree",
+ "C08": "model Reader.buffer_master/roll_up; groups with and without buffered sets",
+ "C12": "model Reader; every cut position of valid documents against an independently computed expectation",
+ "C13": "model Reader.peek_header; all 8 tolerance subsets on single-fault and mutated inputs",
+ "C14": "model Reader.try_recover; junk insertion at tag boundaries with the premise computed by the generator",
+ "C17": "model Reader (buffer length r_cap); declared sizes of every class with payload absent; counting allocator in the harness",
+ "C20": "model Reader.anext; async vs blocking over poll schedules; starved schedules = known finding D15",
+}
+for _p, _t in PENDING.items():
+    CHECKS[_p] = _e(T_CORR,
+        "Executable Gallina model of the code path (" + _t + "), extracted and run against the real code on generated cases every run; the property oracle "
+        "judges the implementation's outputs alone. Machine-checked statements currently in Props/" + _p + ".v are listed in the evidence file (obligations = "
+        "statements counted from the file); the unbounded theorems for this property are being added (see DESIGN.md section 7 for the planned statements) — "
+        "until then the claim for this property rests on the correspondence + oracle and the level is proof only for the statements listed.")
